@@ -247,7 +247,9 @@ func dispatchFrames() int {
 	d := goroutineDump()
 	n := 0
 	for _, g := range strings.Split(d, "\n\n") {
-		if strings.Contains(g, "goirc/client.(*hSet).dispatch") || strings.Contains(g, "goirc/client.(*hNode).Handle") {
+		// "(*Conn).dispatch" also covers the compiler's wrapper for `go conn.bgHandlers.dispatch(...)`
+		// ((*Conn).dispatch.gowrap1): a background dispatch that has been started but not scheduled yet
+		if strings.Contains(g, "goirc/client.(*hSet).dispatch") || strings.Contains(g, "goirc/client.(*hNode).Handle") || strings.Contains(g, "goirc/client.(*Conn).dispatch") {
 			n++
 		}
 	}
